@@ -205,7 +205,8 @@ def sym_sqrt(x):
         if r * r == v:
             return SymReal(z3.RealVal(str(r)))
     e = z3.simplify(e)
-    key = ('sqrt', e.get_id())
+    # one root per radicand, whatever order its terms were summed in (sum-of-monomials normal form, sorted)
+    key = ('sqrt', z3.simplify(e, som=True, sort_sums=True).get_id())
     if key in c.memo:
         return SymReal(c.memo[key])
     c.safety.append(('sqrt-domain', list(c.pc), list(c.defs), e >= 0))
